@@ -2035,3 +2035,198 @@ def _isinstance(interp, x, cls, node):
             return isinstance(x, (int, Fr, Poly))
         raise Unsupported(f"isinstance(..., {cls.name})")
     raise Unsupported("isinstance with a dynamic class")
+
+
+# ----------------------------------------------------------------------------- further jnp idioms (robustness against
+# legal but unusual spellings: a verdict instead of "no transfer function")
+
+
+def _cmp_fn(pyop):
+    def f(it, a, k, node):
+        return compare(it, pyop(), a[0], a[1], node)
+
+    return f
+
+
+for _n, _op in (("equal", ast.Eq), ("not_equal", ast.NotEq), ("greater", ast.Gt), ("greater_equal", ast.GtE), ("less", ast.Lt), ("less_equal", ast.LtE)):
+    REG["jnp." + _n] = _cmp_fn(_op)
+
+
+def _bin_fn(pyop):
+    def f(it, a, k, node):
+        return binop(it, pyop(), a[0], a[1], node)
+
+    return f
+
+
+REG["jnp.true_divide"] = _bin_fn(ast.Div)
+REG["jnp.divide"] = _bin_fn(ast.Div)
+REG["jnp.float_power"] = _bin_fn(ast.Pow)
+REG["jnp.mod"] = _bin_fn(ast.Mod)
+REG["jnp.remainder"] = _bin_fn(ast.Mod)
+REG["jnp.floor_divide"] = _bin_fn(ast.FloorDiv)
+
+
+@reg("jnp.reciprocal")
+def _reciprocal(it, a, k, node):
+    return binop(it, ast.Div(), 1, a[0], node)
+
+
+@reg("jnp.hstack", "jnp.vstack", "jnp.column_stack", "jnp.append")
+def _xstack(it, a, k, node):
+    name = _I().ext_canon(ast.unparse(node.func)) if node is not None else ""
+    if name.endswith("append"):
+        ts = [_arr(a[0]), _arr(a[1])]
+        axis = k.get("axis", a[2] if len(a) > 2 else None)
+        if axis is None:
+            ts = [T.reshape(t, (len(t.data),)) if not t.has_sym() else t for t in ts]
+            axis = 0
+        return T.concatenate(ts, axis)
+    ts = [_arr(x) for x in a[0]]
+    if name.endswith("vstack"):
+        ts = [T.expand_dims(t, 0) if t.ndim < 2 else t for t in ts]
+        return T.concatenate(ts, 0)
+    if name.endswith("column_stack"):
+        ts = [T.expand_dims(t, 1) if t.ndim < 2 else t for t in ts]
+        return T.concatenate(ts, 1)
+    return T.concatenate(ts, 0 if ts[0].ndim == 1 else 1)
+
+
+@reg("jnp.ravel")
+def _ravel(it, a, k, node):
+    return _m_flatten(it, [_arr(a[0])], k, node)
+
+
+@reg("jnp.copy")
+def _copy(it, a, k, node):
+    return _arr(a[0])
+
+
+@reg("jnp.fliplr")
+def _fliplr(it, a, k, node):
+    return _flip(it, [a[0], 1], {}, node)
+
+
+@reg("jnp.flipud")
+def _flipud(it, a, k, node):
+    return _flip(it, [a[0], 0], {}, node)
+
+
+@reg("jnp.tensordot")
+def _tensordot(it, a, k, node):
+    x, y = _arr(a[0]), _arr(a[1])
+    axes = k.get("axes", a[2] if len(a) > 2 else 2)
+    letters = "abcdefghijklmnopqrstuvw"
+    if isinstance(axes, int):
+        ax, ay = list(range(x.ndim - axes, x.ndim)), list(range(axes))
+    else:
+        ax, ay = axes
+        ax = [ax] if isinstance(ax, int) else list(ax)
+        ay = [ay] if isinstance(ay, int) else list(ay)
+    ax = [i % x.ndim for i in ax]
+    ay = [i % y.ndim for i in ay]
+    if len(ax) != len(ay):
+        raise ShapeError("tensordot: axes of different lengths")
+    lx = list(letters[: x.ndim])
+    ly = list(letters[x.ndim : x.ndim + y.ndim])
+    for i, j in zip(ax, ay):
+        ly[j] = lx[i]
+    out = [l for i, l in enumerate(lx) if i not in ax] + [l for j, l in enumerate(ly) if j not in ay]
+    return T.einsum("".join(lx) + "," + "".join(ly) + "->" + "".join(out), x, y)
+
+
+@reg("jnp.take")
+def _take(it, a, k, node):
+    t = _arr(a[0])
+    idx = a[1] if len(a) > 1 else k["indices"]
+    axis = k.get("axis", a[2] if len(a) > 2 else None)
+    if axis is None:
+        raise Unsupported("take on the flattened array")
+    axis = _I()._static_int(axis) % t.ndim
+    if isinstance(idx, Tens):
+        if idx.has_sym():
+            raise Unsupported("take with symbolic indices")
+        idx = [T._as_int(e) for e in idx.data] if idx.ndim else T._as_int(idx.data[0])
+    if isinstance(idx, (list, tuple)):
+        parts = [getitem(it, t, tuple([slice(None)] * axis + [slice(i, i + 1) if i != -1 else slice(-1, None)]), node) for i in (_I()._static_int(x) for x in idx)]
+        return T.concatenate(parts, axis)
+    return getitem(it, t, tuple([slice(None)] * axis + [_I()._static_int(idx)]), node)
+
+
+@reg("jnp.all")
+def _all(it, a, k, node):
+    return REG["jnp.prod"](it, [a[0].map(lambda e: as_poly(_b2p(e))) if isinstance(a[0], Tens) else a[0]] + list(a[1:]), k, node)
+
+
+@reg("jnp.any")
+def _any(it, a, k, node):
+    t = _arr(a[0]).map(lambda e: 1 - as_poly(_b2p(e)))
+    r = REG["jnp.prod"](it, [t] + list(a[1:]), k, node)
+    return r.map(lambda e: 1 - e) if isinstance(r, Tens) else 1 - r
+
+
+@reg("jnp.log1p")
+def _log1p(it, a, k, node):
+    t = _arr(a[0]).map(lambda e: e + 1)
+    log_singular(it, node, "log", t)
+    return t.map(lambda e: alg.fn("log", e))
+
+
+@reg("jnp.exp2")
+def _exp2(it, a, k, node):
+    return _arr(a[0]).map(lambda e: alg.exp(e * alg.fn("log", Poly.const(2))))
+
+
+@reg("jnp.hypot")
+def _hypot(it, a, k, node):
+    s = T.ewise(lambda x, y: x * x + y * y, _arr(a[0]), _arr(a[1]))
+    log_singular(it, node, "norm (sqrt of a sum of squares)", s)
+    return s.map(alg.sqrt)
+
+
+@reg("jnp.cbrt")
+def _cbrt(it, a, k, node):
+    log_singular(it, node, "power", _arr(a[0]))
+    return _arr(a[0]).map(lambda e: e ** Fr(1, 3))
+
+
+for _n in ("arccos", "arcsin", "sinc", "log2", "isinf", "isreal", "angle", "heaviside", "nan_to_num"):
+    REG["jnp." + _n] = _ew1(lambda e, _n=_n: alg.fn(_n, e))
+REG["jnp.arctan2"] = _ew2(lambda x, y: alg.fn("arctan2", x, y))
+REG["jnp.fmax"] = REG["jnp.maximum"]
+REG["jnp.fmin"] = REG["jnp.minimum"]
+REG["jnp.nanmax"] = REG["jnp.max"]
+REG["jnp.nanmin"] = REG["jnp.min"]
+
+
+@reg("lax.select", "jax.lax.select")
+def _lax_select(it, a, k, node):
+    return _where(it, a, k, node)
+
+
+@reg("jnp.size")
+def _size(it, a, k, node):
+    return value_attr(it, _arr(a[0]), "size", node)
+
+
+@reg("jnp.diagonal")
+def _diagonal(it, a, k, node):
+    t = _arr(a[0])
+    if t.ndim != 2 or t.has_sym() or t.shape[0] != t.shape[1]:
+        raise Unsupported("diagonal of a non-square / symbolic array")
+    n = t.shape[0]
+    return Tens((n,), [t.data[i * n + i] for i in range(n)])
+
+
+@reg("functools.reduce")
+def _reduce(it, a, k, node):
+    f, seq = a[0], list(it.iterate(a[1], node))
+    if len(a) > 2:
+        acc = a[2]
+    else:
+        if not seq:
+            raise _I().RepoRaise("TypeError", node, it.cur_file(), "reduce() of empty iterable with no initial value")
+        acc, seq = seq[0], seq[1:]
+    for x in seq:
+        acc = it.call(f, [acc, x], {}, node)
+    return acc
